@@ -31,6 +31,14 @@ def controls(ctx):
         if ("Invariant %s is violated" % inv) not in r["out"]:
             raise Inconclusive("Lifecycle.tla: defect %s does not break %s - the invariant would be vacuous:\n%s" % (d, inv, tail(r["out"], 20)))
         done[d] = inv
+    # liveness control: a provider that stops answering after cancellation breaks ShutdownCompletes
+    cfg = "MCLC_live.cfg"
+    with open(os.path.join(ctx.specdir(), cfg), "w") as f:
+        f.write("SPECIFICATION LiveSpec\nCONSTANTS\n  Conns = {1, 2}\n  MaxPkts = 1\n  Defects = {\"lookupDiesOnCancel\"}\n  Record = FALSE\nPROPERTY ShutdownCompletes\nCHECK_DEADLOCK FALSE\n")
+    r = ctx.tlc("MC_Lifecycle", cfg=cfg, workers=4, heap="4g", timeout=600)
+    if not re.search(r"Temporal propert(y|ies) .*violated", r["out"]):
+        raise Inconclusive("Lifecycle.tla: defect lookupDiesOnCancel does not break ShutdownCompletes:\n%s" % tail(r["out"], 20))
+    done["lookupDiesOnCancel"] = "ShutdownCompletes"
     return done
 
 
